@@ -43,7 +43,12 @@ func HashPoseidon2(x []koalabear.Element) Hash {
 	)
 
 	for i := 0; i < len(x); i += blockSize {
-		copy(state[len(res):], x[i:])
+		n := copy(state[len(res):], x[i:])
+		// zero-pad the last block when it is partial: the rest of the rate
+		// must not keep the output of the previous permutation.
+		for j := len(res) + n; j < stateSize; j++ {
+			state[j].SetZero()
+		}
 		spongePerm.Permutation(state[:])
 	}
 
